@@ -199,6 +199,12 @@ def main():
         .inst(bfr="1E-2", bfa="feeb").inst(afr="1e0", afa="feea").inst(afr=".5", afa="feea").inst(afr="5.", afa="feea") \
         .inst(afr="0.5_", afa="feea").inst(afr="0_5", afa="feea").inst(afr="+.5", afa="feea").inst(afr="0.01", afa="feea") \
         .modify("exec", afr="1e-2", afa="feea").modify("exec", bfr="2.5E-3", bfa="feeb").write()
+    H("c00_before_instantiation", "every kind of request before the contract is instantiated").env() \
+        .create_ask("seller", [(5, "base")], A1, "base", "q", "2", 5).create_bid("buyer", [(10, "q")], B1, None, "2", "q", 10, 5) \
+        .approve("appr", [(5, "base")], A1, "base", 5).rev("cancel_ask", "seller", A1).rev("expire_bid", "exec", B1) \
+        .rev("reject_ask", "exec", A1, 1).match("exec", A1, B1, "2", 5).modify("exec") \
+        .query("get_contract_info").query("get_version_info").query("get_ask", A1).query("get_bid", B1).migrate() \
+        .inst().create_ask("seller", [(5, "base")], A1, "base", "q", "2", 5).query("get_contract_info").write()
     # known numeric classes (recorded findings): witnesses live in corpus/known/
     H("k_inexact_match", "K_inexact: precision 18, increment 1e18, price 0.999999999999999999, size 1e18+1").env() \
         .inst(precision=18, increment=10 ** 18) \
